@@ -290,8 +290,10 @@ bool kirsch_bounded_kfifo_queue<T, Policies...>::committed(const marked_idx& tai
     return true;
   }
 
-  marked_idx tail_current = _tail.load(std::memory_order_relaxed);
+  // head has to be read before tail: head can only move towards (the then current) tail, so with
+  // this order a segment that head has already left is never mistaken for a valid one.
   marked_idx head_current = _head.load(std::memory_order_relaxed);
+  marked_idx tail_current = _tail.load(std::memory_order_relaxed);
   if (in_valid_region(tail_old.get(), tail_current.get(), head_current.get())) {
     return true;
   }
